@@ -74,12 +74,16 @@ func (c *Cache[k, v]) Delete(key k) error {
 	c.mu.Lock()
 	defer c.mu.Unlock()
 	if c.pruneFn != nil && c.entries[key] != nil {
-		v := c.entries[key].value
+		e := c.entries[key]
 		c.mu.Unlock()
-		err := c.pruneFn(key, v)
+		err := c.pruneFn(key, e.value)
 		c.mu.Lock()
 		if err != nil {
 			return err
+		}
+		if c.entries[key] != e {
+			// entry was replaced or removed while the lock was released, the new value has not been pruned
+			return nil
 		}
 	}
 	delete(c.entries, key)
@@ -100,12 +104,20 @@ func (c *Cache[k, v]) DeleteAll() error {
 	errs := make([]error, 0, len(c.entries))
 	for key := range c.entries {
 		if c.pruneFn != nil {
-			v := c.entries[key].value
+			e := c.entries[key]
+			if e == nil {
+				// removed while the lock was released
+				continue
+			}
 			c.mu.Unlock()
-			err := c.pruneFn(key, v)
+			err := c.pruneFn(key, e.value)
 			c.mu.Lock()
 			if err != nil {
 				errs = append(errs, err)
+				continue
+			}
+			if c.entries[key] != e {
+				// entry was replaced or removed while the lock was released, the new value has not been pruned
 				continue
 			}
 		}
